@@ -33,6 +33,9 @@ class Client(ModelObj):
     def start(self, it, op):
         w = self.sim.w
         k = op[0]
+        if k in ("tell", "ask", "tell_t", "ask_t", "ask_join", "stop", "kill", "is_alive", "downgrade") and (
+                op[1] not in self.refs or self.refs[op[1]].value is MOVED):
+            return ("val", "skipped:no-reference")
         if k in ("tell", "ask", "tell_t", "ask_t", "ask_join"):
             msg = w.mk_msg(op[2]) if k != "ask_join" else Agg("struct", "Spawning", [IntV(op[2], 8)])
             args = [self.ref(op[1]), msg]
@@ -87,7 +90,7 @@ class Client(ModelObj):
                     return mk_ready(UNIT)
                 op = self.ops[self.i]
                 it.ex.event(ev="op_start", client=self.name, i=self.i, op=[str(x) if not isinstance(x, (int, str)) else x for x in op],
-                            clock=self.sim.tick())
+                            clock=self.sim.tick(), now_raw=w.now)
                 kind, v = self.start(it, op)
                 if kind == "val":
                     self.finish_op(it, op, v)
@@ -105,12 +108,14 @@ class Client(ModelObj):
         w = self.sim.w
         self.results.append(v)
         it.ex.event(ev="op_done", client=self.name, i=self.i, op=[str(x) if not isinstance(x, (int, str)) else x for x in op],
-                    result=w.describe(v), clock=self.sim.tick(), now=w.now if isinstance(w.now, int) else str(w.now))
+                    result=w.describe(v), clock=self.sim.tick(), now=w.now if isinstance(w.now, int) else str(w.now), now_raw=w.now)
         self.i += 1
 
     def drop(self, it):
         if self.cur is not None:
             it.drop_value(self.cur)
+        if self.keep_refs and self.i >= len(self.ops):
+            return
         for c in self.refs.values():
             if c.value is not MOVED:
                 v, c.value = c.value, MOVED
@@ -172,6 +177,13 @@ class Sim:
         self.clients[name] = c
         return c
 
+    def give_ref(self, holder, target):
+        """the scripted actor `holder` owns a strong reference to `target` (used by its hooks)"""
+        w, it = self.w, self.it
+        main = w.actors[target]["ref_cell"]
+        c = Cell(w.call_trait_method(it, "ActorRef", "Clone", "clone", [Ref(main, (), False)]), "%s.peer[%s]" % (holder, target))
+        w.actors[holder].setdefault("peer_refs", {})[target] = c
+
     def drop_main(self, actor):
         c = self.w.actors[actor]["ref_cell"]
         if c.value is not MOVED:
@@ -199,15 +211,32 @@ class Sim:
             if n >= max_steps:
                 self.bound_hit = True
                 return
-            k = ex.choose(len(opts), "sched")
+            names = [x.name if kind == "poll" else "env:" + x[1] for kind, x in opts]
+            k = ex.sched(names)
             kind, x = opts[k]
             if kind == "poll":
                 ex.event(ev="sched", task=x.name, clock=self.tick())
                 w.poll_task(it, x)
             else:
                 ex.event(ev="env", what=x[1], clock=self.tick())
+                w.cur_fp = {}
                 x[0]()
+            ex.sched_done(w.cur_fp)
             n += 1
+
+    def run_fair_excluding(self, excl, rounds=50):
+        w, it = self.w, self.it
+        for _ in range(rounds):
+            progressed = False
+            for t in list(w.tasks):
+                if t is not excl and w.runnable(t):
+                    self.ex.event(ev="sched", task=t.name, clock=self.tick())
+                    w.poll_task(it, t)
+                    progressed = True
+            if not progressed:
+                return True
+        self.bound_hit = True
+        return False
 
     def run_fair(self, rounds=50):
         """deterministic round-robin until quiescence (used for drains and for `block_on`)"""
